@@ -368,6 +368,13 @@ class Engine:
             except Exception as ex:
                 return dict(obligations=[], paths=0, unsupported=["fragment %s: %s" % (qualname, ex)], finfo=None,
                             complete_paths=0)
+        if finfo is None and "::part[" in qualname:
+            cc = self.contract_of(qualname) or {}
+            try:
+                finfo = self.src.fragment_range(qualname, list((cc.get("params") or {"self": 1}).keys()), cc.get("fragment") or {})
+            except Exception as ex:
+                return dict(obligations=[], paths=0, unsupported=["fragment %s: %s" % (qualname, ex)], finfo=None,
+                            complete_paths=0)
         if finfo is None:
             return dict(obligations=[], paths=0, unsupported=["function %s not found in source" % qualname],
                         finfo=None, complete_paths=0)
